@@ -206,6 +206,9 @@ def find_witness(d, rng, tries=40, pred=None):
             at = alg.atom(a)
             if at.kind == "UF" and at.key[2] == "pos":
                 env[at.key[1]] = abs(env.get(at.key[1], 1.0)) + 0.1
+        for n in names:
+            if n in alg.CONST_VALUES:
+                env[n] = alg.CONST_VALUES[n]
         try:
             v = alg.evalf(d, env)
         except (ValueError, ZeroDivisionError, OverflowError):
